@@ -271,6 +271,10 @@ pub struct SimKnobs {
     /// (ThreadSanitizer-ABI hook, tsanrt.rs); 0 = atomic operations are not scheduling points
     #[serde(default)]
     pub atomic_thin: u32,
+    /// injected fault: a task parked in a futex wait (Mutex / Condvar / Once / park) is woken spuriously with
+    /// probability 1/k per scheduling round it sits out; 0 = never (the wait ends only by a matching wake)
+    #[serde(default)]
+    pub spurious_wake: u32,
 }
 
 #[derive(Serialize, Deserialize, Clone, Debug, PartialEq, Eq)]
